@@ -34,6 +34,13 @@ static int fail_kind = -1, fail_k = 0, short_read = 0;
 static int in_lib = 0;
 static FILE *lib_stream = NULL;
 
+/* the errno an injected failure reports: the usual one for the call, or the one given in FAULT_ERRNO (EINTR, EAGAIN, ...):
+   whatever the reason the OS gives, a refused call is a refused call */
+static int ferr(int dflt) {
+  const char *e = getenv("FAULT_ERRNO");
+  return (e && *e) ? atoi(e) : dflt;
+}
+
 static int hit(int kind) {
   if (!in_lib) return 0;
   count[kind]++;
@@ -43,50 +50,50 @@ static int hit(int kind) {
 
 void *__real_malloc(size_t);
 void *__wrap_malloc(size_t n) {
-  if (hit(K_MALLOC)) { errno = ENOMEM; return NULL; }
+  if (hit(K_MALLOC)) { errno = ferr(ENOMEM); return NULL; }
   return __real_malloc(n);
 }
 void *__real_mmap(void *, size_t, int, int, int, off_t);
 void *__wrap_mmap(void *a, size_t l, int p, int f, int fd, off_t o) {
-  if (hit(K_MMAP)) { errno = ENOMEM; return MAP_FAILED; }
+  if (hit(K_MMAP)) { errno = ferr(ENOMEM); return MAP_FAILED; }
   return __real_mmap(a, l, p, f, fd, o);
 }
 void *__real_mremap(void *, size_t, size_t, int, ...);
 void *__wrap_mremap(void *a, size_t o, size_t n, int f, ...) {
-  if (hit(K_MREMAP)) { errno = ENOMEM; return MAP_FAILED; }
+  if (hit(K_MREMAP)) { errno = ferr(ENOMEM); return MAP_FAILED; }
   return __real_mremap(a, o, n, f);
 }
 int __real_munmap(void *, size_t);
 int __wrap_munmap(void *a, size_t l) {
-  if (hit(K_MUNMAP)) { errno = EINVAL; return -1; }
+  if (hit(K_MUNMAP)) { errno = ferr(EINVAL); return -1; }
   return __real_munmap(a, l);
 }
 int __real_open(const char *, int, ...);
 int __wrap_open(const char *p, int fl, ...) {
   mode_t m = 0;
   if (fl & O_CREAT) { va_list ap; va_start(ap, fl); m = va_arg(ap, mode_t); va_end(ap); }
-  if (hit(K_OPEN)) { errno = EMFILE; return -1; }
+  if (hit(K_OPEN)) { errno = ferr(EMFILE); return -1; }
   return __real_open(p, fl, m);
 }
 int __real_fstat(int, struct stat *);
 int __wrap_fstat(int fd, struct stat *st) {
-  if (hit(K_FSTAT)) { errno = EIO; return -1; }
+  if (hit(K_FSTAT)) { errno = ferr(EIO); return -1; }
   return __real_fstat(fd, st);
 }
 ssize_t __real_read(int, void *, size_t);
 ssize_t __wrap_read(int fd, void *b, size_t n) {
   if (in_lib && short_read && n > 3) return __real_read(fd, b, 3);   /* every read is short */
-  if (hit(K_READ)) { errno = EIO; return -1; }
+  if (hit(K_READ)) { errno = ferr(EIO); return -1; }
   return __real_read(fd, b, n);
 }
 int __real_close(int);
 int __wrap_close(int fd) {
-  if (hit(K_CLOSE)) { __real_close(fd); errno = EIO; return -1; }
+  if (hit(K_CLOSE)) { __real_close(fd); errno = ferr(EIO); return -1; }
   return __real_close(fd);
 }
 FILE *__real_fopen(const char *, const char *);
 FILE *__wrap_fopen(const char *p, const char *m) {
-  if (hit(K_FOPEN)) { errno = EACCES; return NULL; }
+  if (hit(K_FOPEN)) { errno = ferr(EACCES); return NULL; }
   FILE *f = __real_fopen(p, m);
   if (in_lib) lib_stream = f;
   return f;
@@ -94,7 +101,7 @@ FILE *__wrap_fopen(const char *p, const char *m) {
 size_t __real_fwrite(const void *, size_t, size_t, FILE *);
 size_t __wrap_fwrite(const void *b, size_t s, size_t n, FILE *f) {
   if (in_lib && f == lib_stream && f != NULL) {
-    if (hit(K_FWRITE)) { size_t half = n / 2; __real_fwrite(b, s, half, f); errno = ENOSPC; return half; }
+    if (hit(K_FWRITE)) { size_t half = n / 2; __real_fwrite(b, s, half, f); errno = ferr(ENOSPC); return half; }
   }
   return __real_fwrite(b, s, n, f);
 }
@@ -102,7 +109,7 @@ int __real_fclose(FILE *);
 int __wrap_fclose(FILE *f) {
   if (in_lib && f == lib_stream && f != NULL) {
     lib_stream = NULL;
-    if (hit(K_FCLOSE)) { __real_fclose(f); errno = ENOSPC; return EOF; }
+    if (hit(K_FCLOSE)) { __real_fclose(f); errno = ferr(ENOSPC); return EOF; }
   }
   return __real_fclose(f);
 }
